@@ -29,6 +29,7 @@ def main() -> int:
     except ImportError:
         pass
     bad += _explorers()
+    bad += _driver()
     print("selftest", "FAILED" if bad else "ok")
     return 1 if bad else 0
 
@@ -77,4 +78,46 @@ def _explorers() -> int:
         print("selftest: replay divergence not detected", file=sys.stderr)
     except RuntimeError:
         pass
+    return bad
+
+
+def _driver() -> int:
+    """the driver reports what it should: a plain violation, a violation that needs an earlier case of the same process (with that
+    history), and a verdict that is not reproducible (exit code 2, never a VIOLATION line)"""
+    import contextlib
+    import io
+    import os
+    import pathlib
+    import tempfile
+
+    bad = 0
+    tmp = pathlib.Path(tempfile.mkdtemp(prefix="verif-selftest-"))
+    old = core.EVIDENCE_DIR, core.REPLAY_DIR
+    core.EVIDENCE_DIR, core.REPLAY_DIR = tmp / "evidence", tmp / "replays"
+    try:
+        for mode, want_rc, want in (("clean", 0, None), ("plain", 1, "toy|plain"), ("order", 1, "ORDER-DEPENDENT"), ("flaky", 2, None)):
+            os.environ["TOY_MODE"] = mode
+            os.environ["TOY_MARKER"] = str(tmp / "marker")
+            out, err = io.StringIO(), io.StringIO()
+            with contextlib.redirect_stdout(out), contextlib.redirect_stderr(err):
+                rc = core.run_check("T00", "quick", 0, jobs=3)
+            text = out.getvalue()
+            ok = rc == want_rc and (want is None or want in text) and (("VIOLATION" in text) == (want_rc == 1))
+            if mode == "order" and ok:
+                # the artefact holds the shortest history found: one earlier case
+                (art,) = list((tmp / "replays").glob("T00-*.json"))[-1:]
+                data = json.loads(art.read_text())
+                ok = len(data.get("history", [])) == 1 and data["history"][0]["k"] % 10 == 3
+            if not ok:
+                print(f"selftest: driver mode {mode}: rc={rc} (expected {want_rc})\n{text}\n{err.getvalue()}", file=sys.stderr)
+                bad += 1
+            for f in (tmp / "replays").glob("*.json") if (tmp / "replays").exists() else []:
+                f.unlink()
+    finally:
+        core.EVIDENCE_DIR, core.REPLAY_DIR = old
+        os.environ.pop("TOY_MODE", None)
+        os.environ.pop("TOY_MARKER", None)
+        import shutil
+
+        shutil.rmtree(tmp, ignore_errors=True)
     return bad
